@@ -362,3 +362,13 @@ def run(facts, rep, ctx):
     from . import round3, round4
     round3.fw1(facts, rep)
     round4.fw2(facts, rep)
+
+
+_run_before_round6 = run
+
+
+def run(facts, rep, ctx):
+    """rules added after the fifth seeding round (rules/round6.py)"""
+    _run_before_round6(facts, rep, ctx)
+    from . import round6
+    round6.sb12(facts, rep)
